@@ -159,7 +159,7 @@ def call_timed(f, seconds=None):
     counted by the harness and never judged.  Only usable in the main thread of a (worker) process."""
     import signal
     if seconds is None:
-        seconds = float(os.environ.get("VERIF_SOLVER_PATIENCE", "45"))
+        seconds = float(os.environ.get("VERIF_SOLVER_PATIENCE", "20"))
 
     def on_alarm(signum, frame):
         raise _Slow()
